@@ -11,6 +11,8 @@ R20.2 recovery gating: the token-stream mutators of recovery (enter_recovery_mod
 R20.3 depth pairing: production_depth is incremented (push_production) and decremented (E arm of parse_into) under
       guards on Production.is_push_production of equal polarity.
 R20.4 exceeding max_parsing_depth yields Err(MaxParsingDepthExceeded) in both parsers (no panic, no truncation).
+R20.6 the depth-limit error reaches the caller: the Result of every push_production call in LLKParser::parse_into (and its
+      closures) is propagated with `?` / returned, never only inspected (is_err, if let Err, match that breaks the loop).
 R20.5 = all C17 rules re-evaluated: one skip predicate for every site that counts or filters parse-tree-stack entries (the
       trim option decides whether skip tokens are on that stack at all).
 """
@@ -254,8 +256,66 @@ def check(ctx):
         ctx.check(any(e in reach for e in errs) and cmp_ok, "R20.4", "%s|depth-limit-yields-error" % label,
                   "exceeding the depth limit constructs MaxParsingDepthExceeded under a comparison and returns it as Err",
                   "the depth limit does not lead to Err(MaxParsingDepthExceeded) in %s" % short(fn), where(b, line))
+    depth_error_is_propagated(ctx, facts)
     # ---------------------------------------------------------------- R20.5 = C17's rules (added after seed C20-b)
     # trimmed and untrimmed parses differ only in which skip tokens reach the tree stack; every site that counts or filters
     # stack entries must use the same (effective) skip predicate, otherwise the option changes the arguments of the actions
     from . import c17
     c17.check(ctx)
+
+
+
+def _propagated(body, local):
+    """the Result in `local` leaves `body` as its return value: it is the operand of a `?` whose residual is converted into the
+    return place, or it is moved into the return place directly"""
+    from ..dataflow import forward_derived
+    der = forward_derived(body, [local])
+    if 0 in der:
+        # moved / tail-returned; `_0 = Err(..)` built from the payload also counts
+        for bi, si, p, rv, line, mac in body.assigns():
+            if p == [0] and rv[0] == "use" and rv[1][0] in ("c", "m") and rv[1][1][0] in der:
+                return True
+    for c in body.calls():
+        if "std::ops::Try::branch" in c.names() and c.args and c.args[0][0] in ("c", "m") and c.args[0][1][0] in der:
+            d2 = forward_derived(body, [c.dest[0]])
+            for r in body.calls():
+                if "std::ops::FromResidual::from_residual" in r.names() and r.dest == [0] and r.args and \
+                        r.args[0][0] in ("c", "m") and r.args[0][1][0] in d2:
+                    return True
+    return False
+
+
+def depth_error_is_propagated(ctx, facts):
+    """R20.6 (added after seed C20-c)"""
+    root = facts.body(ll.PARSE_INTO)
+    n = 0
+    for b in facts.family(root):
+        for c in b.calls():
+            if ll.PUSH_PRODUCTION not in c.names():
+                continue
+            n += 1
+            ok = False
+            how = ""
+            if b is root:
+                ok = _propagated(b, c.dest[0])
+                how = "`?` in parse_into"
+            else:
+                # inside a closure: the closure returns it, and the value the closure's consumer produces is propagated
+                inner = c.dest == [0] or _propagated(b, c.dest[0])
+                outer = False
+                parent = b.root_fn(facts)
+                for pc in parent.calls():
+                    for a in pc.args:
+                        if a[0] in ("c", "m") and len(a[1]) == 1:
+                            from ..dataflow import single_def
+                            d = single_def(parent, a[1][0])
+                            if d and d[0] == "assign" and d[3][0] == "agg" and d[3][1] == "closure" and d[3][2] == b.path:
+                                outer = outer or _propagated(parent, pc.dest[0])
+                ok = inner and outer
+                how = "returned by a closure whose consumer's result is propagated"
+            ctx.check(ok, "R20.6", "parse_into|push_production-result-propagated|%d" % n,
+                      "the Result of push_production is propagated (%s)" % how,
+                      "the Result of push_production is not propagated out of parse_into (it is only inspected): when the depth "
+                      "limit is exceeded the parse does not end with MaxParsingDepthExceeded but with whatever the code behind "
+                      "the loop decides (SyntaxErrors, UnprocessedInput or even success)", where(b, c.line))
+    ctx.require_floor("R20.6", "push_production_calls", n, 1)
